@@ -115,6 +115,31 @@ def linear_rto(c, iface, m, n, noise_form, prior_form, prior_kind='Gaussian', ba
         c.eq('draw_solves_normal_equations_of_perturbed_system', M(M(new, 1) - (np.asarray(b) + e), 2), np.zeros(n), tol=1e-6)
 
 
+def rto_after_reassignment(c, iface, param, m=2, n=2):
+    """history: a sampler is set up, the prior's matrix parameter and the noise parameter are reassigned through their public setters,
+    and a NEW sampler is set up on the same objects: its system must be that of the posterior as it now is"""
+    target = _target(c, m, n, 'vector', 'vector', 'Gaussian', 'matrix', 1, 'cov', param)
+    xcur = c.vec('xcur', n)
+    def mk():
+        if iface == 'exp':
+            from cuqi.experimental.mcmc import LinearRTO
+            s = LinearRTO(target, initial_point=xcur, maxit=11, tol=1e-3); s.initialize()
+        else:
+            from cuqi.sampler import LinearRTO
+            s = LinearRTO(target, x0=xcur, maxit=11, tol=1e-3)
+        return s
+    s1 = mk(); _ = target.prior.sqrtprecTimesMean
+    setattr(target.prior, param, c.vec('prior_new', n, pos=True))
+    s2 = mk()
+    _check_operator(c, s2.M, s2.b_tild, target, n)
+    target.prior.mean = c.vec('mu_new', n)
+    target.likelihood.distribution.cov = c.vec('noise_new', m, pos=True)
+    s3 = mk()
+    x = c.vec('x3', n)
+    g = c.grad_of(lambda v: target.logd(v), x)
+    c.eq('after_reassigning_mean_and_noise:normal_equations_are_the_stationarity_of_the_targets_own_logd', s3.M(np.asarray(s3.b_tild) - np.asarray(s3.M(x, 1)), 2), g, tol=1e-4)
+
+
 def five_tuple(c, m=2, n=2):
     """legacy 5-tuple input form (data, model, L_sqrtprec, P_mean, P_sqrtprec)"""
     from cuqi.sampler import LinearRTO
@@ -195,5 +220,9 @@ def jobs(tier):
         for bc in ('zero', 'neumann'):
             J.append(Job(f'{tag}.UGLA:local_gaussian_approximation:bc={bc}', lambda c, i=iface, bc=bc: ugla(c, i, 2, 3, bc), 'Pbox',
                          [f'{um}:UGLA._precompute', f'{um}:UGLA.step'] if iface == 'exp' else [f'{um}:UGLA._sample'], extra=_extra, rtol=1e-5, timeout=600))
+    for iface, tag in (('exp', 'experimental'), ('leg', 'legacy')):
+        for param in ('cov', 'prec', 'sqrtcov', 'sqrtprec'):
+            J.append(Job(f'{tag}.LinearRTO:history:new_sampler_after_reassigning_prior_{param}', lambda c, i=iface, p=param: rto_after_reassignment(c, i, p), 'Pbox',
+                         ['cuqi.distribution._gaussian:Gaussian.sqrtprecTimesMean', 'cuqi.distribution._gaussian:Gaussian.sqrtprec'], extra=_extra, rtol=1e-4))
     J.append(Job('legacy.LinearRTO:five_tuple_form', five_tuple, 'Pbox', ['cuqi.sampler._rto:LinearRTO.__init__'], extra=_extra, rtol=1e-4))
     return J
